@@ -182,8 +182,12 @@ def run(ctx):
     tests = npc.Experiment.make_test_array(npc.Experiment.TestFunc.mean_diff, [0])
     weird = [None, 3, "x", [1, 2], {"a": 1}, np.array([1, 2]), (np.array([0, 1]), np.array([[1.0], [2.0]])), (), (1,), (1, 2, 3), npc.randomize_group, npc.Experiment]
     for obj in weird:
+        kw_ = ctx.rng.choice([dict(seed=5), dict(seed=np.random.RandomState(3)), dict(reps=3, seed=0), dict(in_place=True, seed=7), dict(reps=0)])
         for what, call in [("sim_npc with data of type " + type(obj).__name__, lambda obj=obj: npc.sim_npc(obj, tests)),
                            ("westfall_young with data of type " + type(obj).__name__, lambda obj=obj: npc.westfall_young(obj, tests)),
+                           ("sim_npc (" + ", ".join(kw_) + " given) with data of type " + type(obj).__name__, lambda obj=obj: npc.sim_npc(obj, tests, **kw_)),
+                           ("westfall_young (" + ", ".join(kw_) + " given) with data of type " + type(obj).__name__, lambda obj=obj: npc.westfall_young(obj, tests, **kw_)),
+                           ("westfall_young maxT (seed given) with data of type " + type(obj).__name__, lambda obj=obj: npc.westfall_young(obj, tests, method="maxT", alternatives=["greater"], seed=11)),
                            ("Experiment with a randomizer of type " + type(obj).__name__, lambda obj=obj: npc.Experiment([0, 1], [[1.0], [2.0]], randomizer=obj))]:
             if obj is None and what.startswith("Experiment"):
                 continue            # randomizer=None is the documented default
